@@ -821,8 +821,12 @@ fn supported_policies(out: &mut Out, r: &mut Rng, schema: &ValidatorSchema, ssx:
                                     chosen.push(k);
                                 }
                             }
-                            while chosen.len() < 3.min(keys.len()) {
-                                let k = *r.pick(&keys);
+                            // prefer environments in which the policy is relevant (an irrelevant one yields `(rtrie)`)
+                            let relevant: Vec<&String> = groups.iter().filter(|(_, g)| !matches!(g, Some(v) if v.is_empty())).map(|(k, _)| k).collect();
+                            let mut tries_left = 12;
+                            while chosen.len() < 3.min(keys.len()) && tries_left > 0 {
+                                tries_left -= 1;
+                                let k = if !relevant.is_empty() && r.chance(85) { *r.pick(&relevant) } else { *r.pick(&keys) };
                                 if !chosen.contains(&k) {
                                     chosen.push(k);
                                 }
